@@ -38,7 +38,7 @@ const (
 	sigOverlap = "C33/overlapped-same-peer-updates-persist-stale-total"
 	sigRefresh = "C33/refresh-during-update-forgets-traffic"
 	sigNoTotals     = "C33/peer-with-cheque-but-no-stored-total-not-reloaded"
-	sigTorn         = "C33/unlocked-read-of-amount-mutated-in-place"
+	sigRace         = "C33/unlocked-reads-of-per-peer-amounts"
 	sigStale        = "C33/refresh-resets-cheque-amount-to-stale-snapshot"
 )
 
@@ -214,11 +214,12 @@ func run(c gcase) (st gstats, sig string, err error) {
 			atomic.AddInt64(&s.puts, 1)
 			return s.svc.PutTransferTraffic(peer, bu(po.a))
 		case "pay":
-			if known(sigTorn) {
-				// known: issue() mutates the cheque amount in place while the PublishHeader goroutines of
-				// earlier updates read it unlocked; let them finish first (shape excluded by construction)
+			if raceOn && known(sigRace) {
+				// known data race: TrafficInfo (run by the PublishHeader goroutine of every update) reads the
+				// cheque amounts without the peer lock that Pay writes them under; under the race detector
+				// let those goroutines finish first (shape excluded by construction)
 				if atomic.LoadInt64(&s.pub.headers) < atomic.LoadInt64(&s.puts) {
-					evid.Get(id).Excluded(sigTorn)
+					evid.Get(id).Excluded(sigRace)
 				}
 				if err := s.drainHeaders(); err != nil {
 					return err
